@@ -195,7 +195,7 @@ def run(R):
         lines += ls
         owner += [si] * len(ls)
     text = "\n".join(lines) + "\n"
-    exe = R.build_harness("s_map", ["s_map.c"], ldflags=["-Wl,--wrap=malloc,--wrap=calloc,--wrap=realloc,--wrap=strdup"])
+    exe = R.build_harness("s_map", ["s_map.c"], ldflags=[kdf.ALLOC_WRAP])
     rc, out, err = R.run_harness(exe, stdin_text=text)
     impl = kdf.obs(out)
     model = kdf.obs(R.run_driver("map", text))
